@@ -827,6 +827,8 @@ fn c14(tier: &str, thorough: bool) -> i32 {
     let mut configs = 0u64;
     let mut unbounded_configs = 0u64;
     let versions: Vec<u16> = if thorough { vec![3, 4] } else { vec![4] };
+    let started = std::time::Instant::now();
+    let budget = std::time::Duration::from_secs(60 * std::env::var("VERIF_C14_BUDGET_MIN").ok().and_then(|x| x.parse::<u64>().ok()).unwrap_or(if thorough { 40 } else { 600 }));
     for v in versions {
         let image = image_for(v);
         for policy in [Policy::WriterPreferring, Policy::ReaderPreferring] {
@@ -887,7 +889,13 @@ fn c14(tier: &str, thorough: bool) -> i32 {
                     let mut sch = 0u64;
                     let mut stp = 0u64;
                     let mut done = None;
-                    let bounds: &[Option<usize>] = &[None, Some(3), Some(2), Some(1), Some(0)];
+                    // wall-clock budget (thorough tier): configurations started after it are explored from
+                    // preemption bound 1 downwards only; the evidence records the bound completed per configuration
+                    let late = started.elapsed() > budget;
+                    if late {
+                        ctx.add("configs_started_after_time_budget", 1);
+                    }
+                    let bounds: &[Option<usize>] = if late { &[Some(1), Some(0)] } else { &[None, Some(3), Some(2), Some(1), Some(0)] };
                     for &bound in bounds {
                         let st = explore_config(ctx, case, &image, bound, cap);
                         sch += st.schedules;
